@@ -126,9 +126,9 @@ struct Pair {
 
 fn pairs(tier: &str) -> (Vec<Pair>, u64, u64) {
     let thorough = tier == "thorough";
-    let cap_nodes: u64 = if thorough { 6000 } else { 1600 };
-    let cap_other: u64 = if thorough { 2500 } else { 700 };
-    let npos = if thorough { P9.len() } else { 14 };
+    let cap_nodes: u64 = if thorough { 8000 } else { 2400 };
+    let cap_other: u64 = if thorough { 3000 } else { 1000 };
+    let npos = if thorough { P9.len() } else { 20 };
     let mut v = vec![];
     for p in P9.iter().take(npos) {
         let Ok((board, _, _)) = searchrun::open(p.fen, &spos::hist(p)) else { continue };
